@@ -1,3 +1,4 @@
+#define FRGV_LIVE_COUNT
 /* rcu_radixtree harnesses (C09, C10, C16). */
 unsigned frgv_assert_hook_hits;
 #define FRGV_CANARY() __CPROVER_assert(0, "canary: end of harness reachable")
@@ -102,4 +103,7 @@ void h_rt_ops(void)
 	/* C16: the destructor destroys exactly the present values and frees every node (leak check) */
 	for (int i = 0; i < NK; i++) if (!present[i] && addr[i] && addr[i]->live) frgv_tracked_dtor(addr[i]);
 	rt_dtor(&t);
+#ifndef RT_KEEP_ERASED
+	FRGV_NONE_LIVE();
+#endif
 }
